@@ -83,45 +83,80 @@ def check_sat(formulas, timeout_ms=30000, tactic=None, seed=0):
     return 'unknown', s.reason_unknown()
 
 
-def prove(hyps, goal, timeout_ms=30000, slice_=True, extra_goal_terms=()):
+_CACHE = {}
+ABSTRACT = True
+
+
+def tight(goal_terms, formulas, link=()):
+    """Hypotheses all of whose symbols lie in the goal's symbol set, closed under the
+    `link` formulas (definitions: a definition whose defined symbol is reached pulls in its
+    other symbols)."""
+    vs = set()
+    for g in goal_terms:
+        vs |= set(free_vars(g))
+    lk = [(f, set(free_vars(f))) for f in link]
+    changed = True
+    while changed:
+        changed = False
+        for f, sset in lk:
+            if sset & vs and not sset <= vs:
+                vs |= sset
+                changed = True
+    return [f for f in formulas if set(free_vars(f)) <= vs]
+
+
+def prove(hyps, goal, timeout_ms=30000, slice_=True, extra_goal_terms=(), link=()):
     """Is (∧hyps) ⇒ goal valid?  Returns ('valid', None) | ('cex', model) | ('unknown', why).
 
-    Slicing drops hypotheses that share no symbol (transitively) with the goal; a
-    counter-model under the sliced set is re-established under the full set before it
-    is returned."""
+    Hypotheses are tried in growing subsets (dropping hypotheses is sound for validity):
+    (1) those over the goal's own symbols (closed under the definitional `link` formulas),
+    (2) the cone of influence, (3) all.  A counter-model is only returned from the full set."""
     g = z3.simplify(goal)
     if z3.is_true(g):
         STATS.trivial += 1
         return 'valid', None
     neg = z3.Not(goal)
     hs = list(hyps)
+    stages = []
     if slice_:
-        sl = cone([goal, *extra_goal_terms], hs)
-    else:
-        sl = hs
-    r, m = check_sat(sl + [neg], timeout_ms)
-    if r == 'unsat':
-        return 'valid', None
-    if r == 'sat':
-        if len(sl) != len(hs):
-            r2, m2 = check_sat(hs + [neg], timeout_ms)
-            if r2 == 'unsat':
+        t1 = tight([goal, *extra_goal_terms], hs, link)
+        stages.append(t1)
+        c1 = cone([goal, *extra_goal_terms], hs)
+        if len(c1) != len(t1):
+            stages.append(c1)
+    if not stages or len(stages[-1]) != len(hs):
+        stages.append(hs)
+    last = None
+    if ABSTRACT and stages:
+        # stage 0: factor abstraction of the tightest hypothesis set (unsat transfers)
+        try:
+            fs, nvars = abstract_factors(stages[0] + [neg])
+        except Exception:  # noqa
+            fs, nvars = None, 0
+        if nvars:
+            r, m = check_sat(fs, min(timeout_ms, 10000))
+            if r == 'unsat':
+                STATS.abstracted = getattr(STATS, 'abstracted', 0) + 1
                 return 'valid', None
-            if r2 == 'sat':
-                return 'cex', m2
-            return 'unknown', f'sliced sat, full {m2}'
-        return 'cex', m
-    # unknown: one retry with nlsat-oriented tactic
-    r, m = check_sat(sl + [neg], timeout_ms, tactic='qfnra-nlsat')
-    if r == 'unsat':
-        return 'valid', None
-    if r == 'sat':
-        r2, m2 = check_sat(hs + [neg], timeout_ms)
-        if r2 == 'sat':
-            return 'cex', m2
-        if r2 == 'unsat':
+    for k, st in enumerate(stages):
+        full = len(st) == len(hs)
+        key = (tuple(sorted(f.get_id() for f in st)), neg.get_id())
+        if key in _CACHE:
+            r, m = _CACHE[key][:2]
+            STATS.cached = getattr(STATS, 'cached', 0) + 1
+        else:
+            r, m = check_sat(st + [neg], timeout_ms)
+            if r == 'unknown':
+                r2, m2 = check_sat(st + [neg], timeout_ms, tactic='qfnra-nlsat')
+                if r2 != 'unknown':
+                    r, m = r2, m2
+            _CACHE[key] = (r, m, st, neg)   # pin the terms: AST ids must not be reused
+        if r == 'unsat':
             return 'valid', None
-    return 'unknown', str(m)
+        if r == 'sat' and full:
+            return 'cex', m
+        last = (r, m)
+    return 'unknown', str(last[1]) if last else 'no stage'
 
 
 def to_smt2(formulas):
@@ -168,3 +203,83 @@ def model_value(m, t):
     if z3.is_false(v):
         return False
     raise ValueError(f'cannot read model value {v}')
+
+
+# --------------------------------------------------------------------------
+# factor abstraction: replace every sum that occurs as a factor of a product / quotient by
+# coef * fresh-variable (one variable per sum up to a scalar multiple).  The abstracted
+# problem has more models than the original, so `unsat` transfers; `sat` does not.
+# --------------------------------------------------------------------------
+def _split_coef(t):
+    """(Fraction coef, [non-numeric factors]) of a monomial term"""
+    from fractions import Fraction
+    if z3.is_rational_value(t):
+        return Fraction(t.numerator_as_long(), t.denominator_as_long()), []
+    if z3.is_app(t) and t.decl().kind() == z3.Z3_OP_MUL:
+        c = Fraction(1)
+        rest = []
+        for ch in t.children():
+            cc, rr = _split_coef(ch)
+            c *= cc
+            rest += rr
+        return c, rest
+    if z3.is_app(t) and t.decl().kind() == z3.Z3_OP_UMINUS:
+        c, r = _split_coef(t.arg(0))
+        return -c, r
+    return Fraction(1), [t]
+
+
+def abstract_factors(formulas):
+    from fractions import Fraction
+    table = {}     # key -> fresh var
+    memo = {}
+    counter = [0]
+
+    def fresh_for(key):
+        if key not in table:
+            counter[0] += 1
+            table[key] = z3.Real(f'fac!{counter[0]}')
+        return table[key]
+
+    def abstract_sum(t):
+        """t is an ADD node: return coef * var(primitive(t))"""
+        monos = []
+        for ch in t.children():
+            c, rest = _split_coef(ch)
+            rest = sorted(rest, key=lambda x: x.sexpr())
+            monos.append((tuple(r.sexpr() for r in rest), c))
+        # merge equal monomials
+        acc = {}
+        for k, c in monos:
+            acc[k] = acc.get(k, Fraction(0)) + c
+        items = sorted((k, c) for k, c in acc.items() if c != 0)
+        if not items:
+            return z3.RealVal(0)
+        lead = items[0][1]
+        key = tuple((k, c / lead) for k, c in items)
+        v = fresh_for(key)
+        return z3.RealVal(f'{lead.numerator}/{lead.denominator}') * v
+
+    def walk(t, under_product):
+        k = (t.get_id(), under_product)
+        if k in memo:
+            return memo[k][0]
+        if not z3.is_app(t) or t.num_args() == 0:
+            r = t
+        else:
+            kind = t.decl().kind()
+            if under_product and kind == z3.Z3_OP_ADD and z3.is_arith(t):
+                ts = z3.simplify(t, som=True)
+                if z3.is_app(ts) and ts.decl().kind() == z3.Z3_OP_ADD:
+                    r = abstract_sum(ts)
+                else:
+                    r = ts
+            else:
+                up = kind in (z3.Z3_OP_MUL, z3.Z3_OP_DIV, z3.Z3_OP_POWER)
+                ch = [walk(c, up) for c in t.children()]
+                r = t.decl()(*ch) if any(not a.eq(b) for a, b in zip(ch, t.children())) else t
+        memo[k] = (r, t)
+        return r
+
+    out = [walk(z3.simplify(f), False) for f in formulas]
+    return out, len(table)
